@@ -431,7 +431,7 @@ func (w *World) Pick(names []string) []*UTx {
 // signalling, replacement candidates exactly at / one below thresholds, a
 // non-signalling conflict pair (one of them free), and an orphan that conflicts
 // with two different families.
-func MainWorld(b *Base) *World {
+func MainWorld(b *Base, thorough bool) *World {
 	w := NewWorld(b, "main")
 	const sz = 71 // 1-in 2-out OP_TRUE transaction
 	w.Add("A", []I{{"K0", RBFMax}}, 2, KTrue, 2000)    // explicit signalling
@@ -456,8 +456,26 @@ func MainWorld(b *Base) *World {
 			panic(fmt.Sprintf("size of %s is %d, expected %d", t.Ref.Name, t.Ref.Size, want))
 		}
 	}
-	w.MineSets = [][]string{{"A"}, {"A1"}, {"E", "A", "B"}}
+	// block events beyond MineEmpty / MinePool: a block confirming A (pooled or not:
+	// "also mined"; promotes orphans of A), one confirming A1 (conflicts with
+	// whatever the pool built on K0), in the thorough tier one confirming a chain
+	w.MineSets = [][]string{{"A"}, {"A1"}}
+	if thorough {
+		w.MineSets = append(w.MineSets, []string{"E", "A", "B"})
+	}
 	w.ReorgSets = [][]string{{}, {"A1"}}
+	return w.Seal()
+}
+
+// RaceWorld is MainWorld plus four free transactions on coins of their own: probed
+// with CheckMempoolAcceptance they always reach the free-transaction rate limiter.
+func RaceWorld(b *Base) *World {
+	w := MainWorld(b, false)
+	w.Name = "race"
+	for i, c := range []string{"K2", "K3", "K4", "K5"} {
+		w.Add(fmt.Sprintf("F%d", i), []I{{c, Final}}, 2, KTrue, 0)
+	}
+	w.Ops = nil
 	return w.Seal()
 }
 
